@@ -18,6 +18,9 @@ RULE = ('T2/T3: URI(bytes).tuple, URI(scheme=..,...).tuple, bytes(URI), the path
 	'schemes, Unicode user/password/segments/pairs/fragment dense in delimiters, reg-name/IDN/IPv4/IPv6/IPvFuture hosts, every port class, '
 	'objects whose scheme is reassigned after construction, the URIs of tests/uri, mutations of composed URIs and a token-level malformed stream; '
 	'inet_pton/inet_ntop and the IDNA codec are instantiated by the (argument, result) pairs recorded from the run. '
+	'Wave-3 classes: reused objects (serialised, read, modified through attributes / dict / tuple / set() / parse() / __init__ and serialised again; second and third parse on one object; copies) compared with a new object from the same final components; '
+	'non-normalised and look-alike text in every text slot; lengths 11..8192 (65535/65536) per slot, host and whole serialisation; every scheme of URI.SCHEMES (read at run time) x every registered default port x letter cases; all 22x22 escape spellings; '
+	'degenerate values per slot and hosts on the border between the syntactic kinds; the components re-written by an independent RFC 3986 sender (other escaping / hex case / scheme and host case / port spellings). '
 	'Oracle: tuple and octets after compose -> parse -> compose on the real code, plus an independent RFC 3986 appendix-B reading of the composed octets. '
 	'non-trivial = distinct (kind, input) reaching a distinct outcome')
 EXHAUSTIVE = {'quick': False, 'thorough': False}
@@ -256,7 +259,208 @@ def gen_cases(rng, tier):
 		cases.append({'k': 'int', 'd': d.hex()})
 	for n in [0, 1, 9, 10, 11, 99, 100, 101, 255, 256, 999, 1000, 9999, 10000, 32767, 32768, 65535, 65536, 99999, 100000, 10 ** 9, 2 ** 64, 10 ** 25] + [rng.randint(0, 70000) for _ in range(100)]:
 		cases.append({'k': 'dec', 'n': n})
+	cases.extend(_gen_classes(rng, big))
 	return cases
+
+
+# ---------------------------------------------------------------- the six classes of DESIGN section 8 (wave-3 strengthening)
+# look-alikes and non-normalised text: every entry is changed by at least one of NFC / NFD / NFKC / NFKD / lower() / casefold()
+NORM = ['e\u0301', 'A\u030a', '\u00c5', '\u2126', '\u212a', '\u212b', '\u00e9', '\u1100\u1161\u11a8', '\uac01', '\uf900', '\ufa0e', '\U0002f800', '\ufb01', '\u2460', '\uff21',
+	'\u00b5', '\u03bc', '\u1e9b\u0323', 'a\u0323\u0300', 'a\u0300\u0323', '\u0958', '\u0344', '\u0130', '\u0131', '\u017f', '\u1e9e', '\u03c2', '\u01c5', '\U0001f600',
+	'\U0001f468\u200d\U0001f469', '\U00010400', '\u00df', '\u0660', '\u2024', '\uff0f', '\uff1a', '\uff20', '\uff05', '\ufe6a', '\u2215', '\u037e', '\uff1f', '\uff03', '\ufe55', '\u2100']
+LENS = [11, 12, 75, 76, 255, 256, 1023, 1024, 4095, 4096, 8190, 8191, 8192]
+DEGEN = ['', ' ', '  ', ':', '::', '@', '@@', '/', '//', '?', '??', '#', '##', '&', '&&', '=', '==', '+', '++', '%', '%%', '%2', '%%41', ';', ';;', ',', ',,', '.', '..', '...', '"', '""', '"a', "'", "'a",
+	'(', '[', ']', '][', '[[', '<', '{', '\\', ' a', 'a ', ' a ', '\u00a0', '\u3000', '\u200b', '\ufeff', '=&', '&=', '?#', '#?', ':@', '@:', '/?#', '&a', 'a&', '=a', 'a=', '#a', '?a', '+a', 'a+']
+TEXT_SLOTS = ('user', 'pw', 'seg', 'name', 'value', 'frag')
+COQ_TEXT_LIMIT = 300   # cases carrying more text than this stay oracle-only (a case literal repeats the text about six times)
+
+
+def _registry():
+	"""scheme -> default port of the tree under test, read at run time"""
+	um, URI, InvalidURI, Percent = _impl()
+	import httoop.uri  # noqa: F401  (registers the scheme classes)
+	return sorted((k.decode('ascii'), v.PORT) for k, v in URI.SCHEMES.items())
+
+
+def _put(c, slot, text, rng):
+	if slot == 'user':
+		c['user'] = text
+	elif slot == 'pw':
+		c['user'], c['pw'] = c['user'] or 'u', text
+	elif slot == 'seg':
+		c['segs'] = rng.choice([[text], ['a', text], [text, 'c'], ['a', text, 'c'], [text, text]])
+	elif slot == 'name':
+		c['pairs'] = rng.choice([[[text, 'v']], [[text, '']], [['n', 'v'], [text, 'w']]])
+	elif slot == 'value':
+		c['pairs'] = rng.choice([[['n', text]], [['n', text], ['m', '']], [['n', 'v'], ['m', text]]])
+	else:
+		c['frag'] = text
+	return c
+
+
+def _ctx(rng):
+	return _comps(scheme=rng.choice(['http', 'https', 'foo', 'ftp', '']), host=rng.choice(['h', '[::1]', '1.2.3.4', 'b\u00fccher.example', 'a.b']), port=rng.choice([None, None, 80, 81, 443]))
+
+
+def _textlen(c):
+	return sum(len(t.encode('utf-8', 'replace')) for t in [c['scheme'], c['user'], c['pw'], c['host'], c['frag']] + list(c['segs']) + [x for p in c['pairs'] for x in p])
+
+
+def _rt(c):
+	c = dict(c, k='rt')
+	if _textlen(c) > COQ_TEXT_LIMIT:
+		c['nocoq'] = 1
+	return c
+
+
+def _host_of_len(n):
+	labels = []
+	while n > 63:
+		labels.append('a' * 63)
+		n -= 64
+	if n:
+		labels.append('b' * n)
+	return '.'.join(labels) if n else '.'.join(labels) + '.'
+
+
+def _clean(rng, c):
+	"""a structured tuple without the input classes of the known findings (D1/D21 controls are never drawn; D19 password without user; D30 '://' in the path)"""
+	if c['pw'] and not c['user']:
+		c['user'] = 'u'
+	return c
+
+
+def _st_comps(rng):
+	scheme = rng.choice(SCHEMES_OK) if rng.random() < 0.85 else ''
+	user = rtext(rng, 1, 3, 0, 0) if rng.random() < 0.6 else ''
+	pw = rtext(rng, 0, 3, 0, 0) if user and rng.random() < 0.6 else ''
+	segs = [rtext(rng, 0, 3, 0, 0) for _ in range(rng.choice([0, 1, 1, 2, 3]))]
+	ps = [[rtext(rng, 1, 2, 0, 0), rtext(rng, 0, 3, 0, 0)] for _ in range(rng.choice([0, 1, 1, 2, 3]))]
+	frag = rtext(rng, 0, 3, 0, 0) if rng.random() < 0.5 else ''
+	port = rng.choice([None, None, 80, 443, 21, 22, 8080, 1, 65535, rng.randint(1, 65535)])
+	return _comps(scheme, user, pw, rhost_ok(rng), port, segs, ps, frag)
+
+
+ST_WAYS = ('attr', 'attr', 'partial', 'partial', 'dict', 'set-dict', 'tuple', 'set-tuple', 'set-uri', 'parse', 'ctor-reinit')
+ST_SLOTS = ('scheme', 'user', 'pw', 'host', 'port', 'segs', 'pairs', 'frag')
+
+
+def _gen_classes(rng, big):
+	out = []
+	reg = _registry()
+	regnames = [n for n, _ in reg]
+	# (2) normalisation forms and look-alikes in every text position (hosts are excluded: IDNA's nameprep maps them by design, such hosts are outside the domain)
+	for t in NORM:
+		for slot in TEXT_SLOTS:
+			for text in ([t, 'x' + t, t + t, t + 'y'] if big else [rng.choice([t, t, 'x' + t, t + t, t + 'y'])]):
+				out.append(_rt(_put(_ctx(rng), slot, text, rng)))
+	# (3) lengths at and around the usual limits in every position that has a length
+	fills = ['a', '\u00e9', ':', '\U0001f600', ' ', '%', 'a\u00e9', '/']
+	for n in LENS + ([16383, 16384, 65535, 65536] if big else []):
+		for slot in TEXT_SLOTS:
+			for f in (fills if big and n <= 8192 else [rng.choice(fills)]):
+				out.append(_rt(_put(_ctx(rng), slot, (f * n)[:n], rng)))
+		out.append(_rt(_comps(scheme=''.join(rng.choice('abcxyz09+-.') for _ in range(n - 1)).join(['s', '']), host='h', port=rng.choice([None, 80]))))
+		if n <= 4096:
+			out.append(_rt(_comps(scheme=rng.choice(['http', 'foo']), host=_host_of_len(n), segs=['p'])))
+		# the whole serialisation is exactly n octets long
+		out.append(_rt(_comps(scheme='http', host='h', segs=['a' * (n - 9)])))
+		out.append(_rt(_comps(scheme='x', host='h', port=8, ps=[['n', 'v' * (n - 11)]])))
+		out.append(_rt(_comps(scheme='http', user='u', pw='p', host='h', frag='f' * (n - 15))))
+	for n in ([65535, 65536] if not big else []):
+		for slot in ('seg', 'value', 'frag', 'user'):
+			out.append(_rt(_put(_ctx(rng), slot, 'a' * n, rng)))
+	for n in (11, 12, 75, 76, 255, 256) + ((1023, 1024) if big else ()):   # numbers of segments / pairs (beyond the 0-5 / 0-4 of the statement; the theorems are unbounded)
+		out.append(_rt(_comps(scheme='http', host='h', segs=[rng.choice(['a', '', '\u00e9', ':']) for _ in range(n)] + ['z'])))
+		out.append(_rt(_comps(scheme='http', host='h', ps=[[rng.choice(['a', 'b', '\u00e9']), rng.choice(['', 'v', '&'])] for _ in range(n)])))
+	for lab in (62, 63):
+		out.append(_rt(_comps(scheme='http', host='a' * lab + '.b', segs=['p'])))
+		out.append(_rt(_comps(scheme='http', host='x.' + '\u00e4' * (lab - 8), segs=['p'])))
+	# (4) every name of the scheme registry of the tree under test (read at run time), with every registered default port, in several letter cases
+	ports = sorted({p for _, p in reg if p})
+	for name, dflt in reg:
+		for p in [None, 1, 65535] + ports:
+			out.append(_rt(_comps(scheme=name, user=rng.choice(['', 'u']), host=rng.choice(['h', '[::1]']), port=p, segs=rng.choice([[], ['p']]))))
+		for variant in (name.upper(), name.title(), name.swapcase()[:1] + name[1:]):
+			for p in (None, dflt, rng.choice(ports)):
+				out.append(_rt(_comps(scheme=variant, host='h', port=p, segs=['p'])))   # outside the domain (the parser lower-cases): correspondence only
+		for variant in (name, name.upper(), name.title(), ''.join(ch.upper() if i % 2 else ch for i, ch in enumerate(name))):
+			for spell in ('', ':', ':%d', ':0%d', ':1%d'):
+				out.append({'k': 'reg', 'scheme': variant, 'dflt': dflt, 'spell': spell})
+	# ... and every key of the escape table: all 22 x 22 spellings of two hexadecimal digits (plus whatever else the tree's HEX_MAP holds)
+	um, URI, InvalidURI, Percent = _impl()
+	hexd = '0123456789ABCDEFabcdef'
+	keys = [a + b for a in hexd for b in hexd]
+	for kx in sorted(Percent.HEX_MAP):
+		try:
+			kx = kx.decode('ascii')
+		except UnicodeError:
+			continue
+		if kx not in keys and re.match(r'^[\x21-\x7e]+$', kx):
+			keys.append(kx)
+	for kx in keys:
+		out.append({'k': 'hex', 'key': kx})
+	# (5) degenerate values in every position: empty, blanks only, separators only, doubled separators, unbalanced quotes
+	for d in DEGEN:
+		for slot in TEXT_SLOTS:
+			if slot == 'name' and not d:
+				continue   # an empty name is outside the statement ("non-empty names")
+			out.append(_rt(_put(_ctx(rng), slot, d, rng)))
+	for segs in ([''], ['', ''], ['', '', ''], ['a', '', '', 'b'], ['a', ''], ['', 'a'], [' '], [' ', ' '], ['.', '..', '.'], ['%2f'], ['%2F', '/'], ['/', '/']):
+		out.append(_rt(_comps(scheme=rng.choice(['http', 'foo']), host='h', segs=segs)))
+	for ps in ([['a', '']] * 3, [['a', 'b'], ['a', 'b']], [['a', 'b'], ['a', 'c'], ['a', 'b']], [['a', '='], ['=', 'a']], [['&', '&'], ['&', '&']], [[' ', ' ']], [['+', '+'], [' ', ' ']], [['a', ' '], ['a', '  ']], [['b', '1'], ['a', '2'], ['b', '0']]):
+		out.append(_rt(_comps(scheme=rng.choice(['http', 'foo']), host='h', ps=ps)))
+	# ... hosts on the border between the syntactic kinds (a registered name that starts like an IPv4 literal, like an IPvFuture tag, ...)
+	for h in ('10.0.0.1.nip.io', '192.168.1.10-backup.lan', '127.0.0.1x', '1.2.3.4.example', '1.2.3.4-a', '1.2.3.x', '0x7f.1', '1e3', '123.a', 'a.123', '1-2.3.4.5', 'v1.x', 'v1.fe80', '1.2.3.4.', 'fe80', 'dead.beef', '1.2.3.4a.5',
+			'xn--bcher-kva.1.2.3.4', '4.3.2.1.in-addr.arpa', '-', '_', '~', '1_2.3.4.5', "1.2.3.4'", '255.255.255.255.a', '[::1.2.3.4]', '[1::]', '[v1.1.2.3.4]', '[vf.a]', '[v0.:]'):
+		for sc in ('http', rng.choice(['', 'foo', 'https'])):
+			out.append(_rt(_comps(scheme=sc, user=rng.choice(['', 'u']), host=h, port=rng.choice([None, 8080]), segs=rng.choice([[], ['p']]))))
+	# (1) statefulness: an object serialised, read, modified through every public way and serialised again; a second parse on one object; copies
+	wide = ['a:b@c', 'x/y?z', "a:b/c?d@e", '\u00e9:@/?', 'p@q:r', '1+1=2&3', 'a b+c', 'q?&=#']
+	for i in range(3000 if big else 460):
+		a, b = _st_comps(rng), _st_comps(rng)
+		way = ST_WAYS[i % len(ST_WAYS)]
+		if rng.random() < 0.4:
+			# the same delimiter-dense text first in a position with a wide safe set, then in one with a narrow safe set (and the other way round):
+			# a result memoised by text alone shows up as a leak
+			x = rng.choice(wide)
+			first, second = rng.sample(['user', 'pw', 'seg', 'name', 'value', 'frag'], 2)
+			_put(a, first, x, rng)
+			_put(b, second, x, rng)
+		_clean(rng, a), _clean(rng, b)
+		changed = list(ST_SLOTS)
+		if way == 'partial':
+			changed = rng.sample(ST_SLOTS, rng.randint(1, 3))
+			if 'scheme' in changed and 'port' not in changed:
+				changed.append('port')   # the port of an object is stored with the default of the class it had then (API design, modelled by 'obj' cases); reassign it
+			if ('user' in changed) != ('pw' in changed):
+				changed += [x for x in ('user', 'pw') if x not in changed]   # (D19: never a password without user name)
+			b = dict(a, **{s: b[s] for s in changed})
+		# never a transition from a registered scheme to NO scheme on one object: assigning an empty scheme (attribute, dict, tuple or parse()) keeps the
+		# old scheme class and its default port -- hidden state recorded in notes/reports/C10.md as an observation outside the statement
+		if not b['scheme'] and (a['scheme'] in regnames or way in ('parse', 'ctor-reinit')):
+			b['scheme'] = rng.choice(['foo', 'http', 'x-y.z'])
+		if not a['scheme'] and b['scheme'] in regnames:
+			a['scheme'] = rng.choice(['foo', 'ftp'])   # (the object that parses the second wire and then the first one again)
+		order = [s for s in ST_SLOTS[1:] if s in changed]
+		rng.shuffle(order)
+		c = dict(b, k='st', a=a, way=way, order=(['scheme'] if 'scheme' in changed else []) + order, reads=rng.sample(['query', 'segs', 'hostname', 'port', 'repr', 'dict', 'tuple', 'copy', 'eq', 'bytes', 'str'], rng.randint(0, 5)))
+		if _textlen(c) + _textlen(a) > COQ_TEXT_LIMIT:
+			c['nocoq'] = 1
+		out.append(c)
+	# (6) the serialisation re-written the way another sender would write the same components (other escaping of the same octets, other case of
+	# hex digits / scheme / host, explicit or empty port, %20 for '+', empty userinfo / query / fragment markers).  The statement speaks of parsing what the
+	# library serialised; the parser model covers every input, and these equivalent spellings must be read as the same eight components.
+	for i in range(3000 if big else 420):
+		c = _clean(rng, _st_comps(rng))
+		if rng.random() < 0.3:
+			_put(c, rng.choice(TEXT_SLOTS), rng.choice(NORM + DEGEN[1:]), rng)
+			_clean(rng, c)
+		c = dict(c, k='enc', pol=('lower', 'all', 'mixed', 'mixed')[i % 4], seed=rng.randrange(1 << 30))
+		if _textlen(c) > COQ_TEXT_LIMIT // 3:
+			c['nocoq'] = 1
+		out.append(c)
+	return out
 
 
 def _mutate(rng, d):
@@ -361,6 +565,282 @@ def _parse(data):
 	return o
 
 
+def _after_build(u, c, k, o):
+	"""what is observed of an assembled URI object: its eight slots, the octets, what the octets parse to, the octets again, the API views"""
+	um, URI, InvalidURI, Percent = _impl()
+	o['set'] = {'t': _tuple(u)}
+	o['ide'] = _idna_enc_table(o['set']['t'][3])
+	o['compose'] = _compose(u)
+	if 'b' not in o['compose']:
+		return o
+	data = bytes.fromhex(o['compose']['b'])
+	if k == 'mut':
+		import random
+		r2 = random.Random(c['seed'])
+		d = bytearray(data)
+		for _ in range(c['n']):
+			_mutate(r2, d)
+		data = bytes(d)
+		o['d'] = data.hex()
+	o['parse'] = _parse(data)
+	if k != 'mut' and 't' in o['parse']:
+		try:
+			v = URI(data)
+			o['again'] = _compose(v)
+			o['segs_back'] = list(v.path_segments)
+			try:
+				o['pairs_back'] = [list(p) for p in v.query]
+			except Exception as exc:
+				o['pairs_back'] = _exc(exc)
+		except Exception as exc:
+			o['again'] = _exc(exc)
+	return o
+
+
+def _assign(u, c, slot):
+	if slot == 'scheme':
+		u.scheme = c['scheme']
+	elif slot == 'user':
+		u.username = c['user']
+	elif slot == 'pw':
+		u.password = c['pw']
+	elif slot == 'host':
+		u.host = c['host']
+	elif slot == 'port':
+		u.port = c['port']
+	elif slot == 'segs':
+		u.path_segments = ([''] + list(c['segs'])) if c['segs'] else []
+	elif slot == 'pairs':
+		u.query = [tuple(p) for p in c['pairs']]
+	else:
+		u.fragment = c['frag']
+
+
+def _t_or_err(f):
+	try:
+		return {'t': _tuple(f())}
+	except Exception as exc:
+		return _exc(exc)
+
+
+def _observe_st(c):
+	"""statefulness: one object assembled from c['a'], serialised, read, brought to the components c through the public way c['way'], serialised again.
+	'final' is what the reused object shows, 'fresh' what a new object assembled from the same final components shows (same shape as an 'rt' observation)."""
+	um, URI, InvalidURI, Percent = _impl()
+	a, way = c['a'], c['way']
+	o = {'notes': []}
+	try:
+		u = _build(a)
+		t1, w1 = _tuple(u), bytes(u)
+	except Exception as exc:
+		o['pre'] = _exc(exc)
+		return o
+	o['pre'] = {'t': t1, 'b': w1.hex()}
+	# read-only uses must not change the object
+	shared = None
+	for r in c['reads']:
+		try:
+			if r == 'query':
+				u.query
+			elif r == 'segs':
+				u.path_segments
+			elif r == 'hostname':
+				u.hostname
+			elif r == 'port':
+				u.port
+			elif r == 'repr':
+				repr(u)
+			elif r == 'dict':
+				u.dict
+			elif r == 'tuple':
+				u.tuple
+			elif r == 'copy':
+				shared = URI(u)
+			elif r == 'eq':
+				u == URI(w1), u == w1, u != URI(b'http://other/')
+			elif r == 'bytes':
+				bytes(u)
+			else:
+				u.compose()
+		except Exception as exc:
+			o['notes'].append('read %s raised %s' % (r, type(exc).__name__))
+	o['pre2'] = {'t': _tuple(u), 'b': _compose(u).get('b')}
+	# the expectation: a new object from the final components (built first: a class-level memo filled by the old object then shows in the absolute oracle)
+	fresh = None
+	try:
+		fresh = _build(c)
+		ft, fw = _tuple(fresh), bytes(fresh)
+	except Exception as exc:
+		o['fresh'] = {'set': _exc(exc)}
+		return o
+	# modification through the public API
+	try:
+		if way in ('attr', 'partial'):
+			for slot in c['order']:
+				_assign(u, c, slot)
+		elif way in ('dict', 'set-dict'):
+			d = {'scheme': c['scheme'], 'username': c['user'], 'password': c['pw'], 'host': c['host'], 'port': c['port'], 'fragment': c['frag']}
+			if way == 'dict':
+				u.dict = d
+			else:
+				u.set(d)
+			_assign(u, c, 'segs')
+			_assign(u, c, 'pairs')
+		elif way == 'tuple':
+			u.tuple = tuple(ft)
+		elif way == 'set-tuple':
+			u.set(tuple(ft))
+		elif way == 'set-uri':
+			donor = _build(c)
+			u.set(donor)
+			donor.username, donor.fragment, donor.host = 'zz', 'zz', 'zz.example'   # the donor is modified afterwards: the copy must not follow
+			donor.path_segments = ['', 'zz']
+			donor.query = [('zz', 'zz')]
+		elif way == 'parse':
+			u.parse(fw)
+		elif way == 'ctor-reinit':
+			u.__init__(fw)
+		else:
+			raise ValueError(way)
+	except Exception as exc:
+		o['modify'] = _exc(exc)
+	o['final'] = _after_build(u, c, 'st', {})
+	o['final']['twice'] = _compose(u)
+	o['final']['t_after'] = _t_or_err(lambda: u)
+	o['fresh'] = _after_build(fresh, c, 'st', {})
+	if shared is not None:
+		o['shared'] = {'t': _tuple(shared), 'b': _compose(shared).get('b')}
+	# a second and a third parse on one object
+	if 'b' in o['final']['compose']:
+		w2 = bytes.fromhex(o['final']['compose']['b'])
+		v = None
+		try:
+			v = URI(w1)
+		except Exception:
+			pass
+		if v is not None:
+			o['reparse'] = {'second': _t_or_err(lambda: (v.parse(w2), v)[1]), 'second_fresh': _t_or_err(lambda: URI(w2))}
+			if 't' in o['reparse']['second']:
+				o['reparse']['third'] = _t_or_err(lambda: (v.parse(w1), v)[1])
+				o['reparse']['third_fresh'] = _t_or_err(lambda: URI(w1))
+	return o
+
+
+ENC_UNRES = b'abcdefghijklmnopqrstuvwxyzABCDEFGHIJKLMNOPQRSTUVWXYZ0123456789-._~'
+ENC_SUB = b"!$&'()*+,;="
+ENC_SAFE = {'user': ENC_UNRES + ENC_SUB, 'pw': ENC_UNRES + ENC_SUB + b':', 'seg': ENC_UNRES + ENC_SUB + b':@', 'q': ENC_UNRES + b"!$'()*,;:@/?", 'frag': ENC_UNRES + ENC_SUB + b':@/?'}
+
+
+def _enc_wire(c, port, dflt):
+	"""the components of c written by an independent sender (RFC 3986 section 3, own safe sets; nothing of httoop is used).
+	port: the port the object reports; dflt: the registered default port of the scheme, if any"""
+	import random
+	r = random.Random(c['seed'])
+	pol = c['pol']
+
+	def esc(text, where):
+		out = bytearray()
+		for ch in text.encode('utf-8'):
+			raw = ch in ENC_SAFE[where] and pol != 'all' and not (pol == 'mixed' and r.random() < 0.3)
+			if where == 'q' and ch == 0x20 and pol != 'all' and r.random() < 0.5:
+				out += b'+'
+			elif raw:
+				out.append(ch)
+			else:
+				h = '%02X' % ch
+				out += b'%' + (h.lower() if pol == 'lower' else ''.join(x.lower() if r.random() < 0.5 else x for x in h) if pol == 'mixed' else h).encode('ascii')
+		return bytes(out)
+	out = bytearray()
+	if c['scheme']:
+		out += (c['scheme'].upper() if r.random() < 0.3 else c['scheme'].title() if r.random() < 0.2 else c['scheme']).encode('ascii') + b':'
+	out += b'//'
+	if c['user'] or c['pw']:
+		out += esc(c['user'], 'user')
+		if c['pw'] or r.random() < 0.2:
+			out += b':' + esc(c['pw'], 'pw')
+		out += b'@'
+	elif r.random() < 0.1:
+		out += b'@'
+	kind = _host_kind(c['host'])
+	wire = c['host'].encode('idna')
+	ascii_reg = kind == 'reg' and wire == c['host'].encode('utf-8') and b'xn--' not in wire
+	# (an A-label is never upper-cased here: CPython's idna codec compares the ACE prefix case-sensitively, so URI(b'//XN--BCHER-KVA').host is
+	# 'xn--bcher-kva', not the U-label -- behaviour of the callee the model takes as a parameter, kept out of this generator)
+	if (ascii_reg or kind == 'ip6') and r.random() < 0.4:
+		wire = wire.upper()
+	elif ascii_reg and r.random() < 0.3:
+		wire = b''.join((b'%%%02x' % ch) if chr(ch).isalnum() and r.random() < 0.4 else bytes([ch]) for ch in wire)
+	elif kind == 'ip6' and r.random() < 0.4:
+		wire = b'[' + ':'.join('%x' % int.from_bytes(socket.inet_pton(socket.AF_INET6, c['host'][1:-1])[i:i + 2], 'big') for i in range(0, 16, 2)).encode('ascii') + b']'
+	out += wire
+	# an empty port (RFC 3986: port = *DIGIT) is never written in front of a path that starts with an empty segment: 'http://h://x' holds a second '://'
+	# and URI.parse splits at the LAST one (rpartition) -> InvalidURI.  Same root cause as the known finding D30 with another trigger; reported, kept out here.
+	colon_ok = not (c['segs'] and c['segs'][0] == '')
+	if port is not None and port == dflt and r.random() < 0.5:
+		out += b':' if colon_ok and r.random() < 0.4 else b''
+	elif port is not None:
+		out += b':' + (b'0' * r.choice([0, 0, 1, 3])) + (b'%d' % port)
+	elif colon_ok and r.random() < 0.3:
+		out += b':'
+	if c['segs']:
+		out += b'/' + b'/'.join(esc(s, 'seg') for s in c['segs'])
+	if c['pairs']:
+		fields = []
+		for n, v in c['pairs']:
+			fields.append(esc(n, 'q') + (b'=' + esc(v, 'q') if v or r.random() < 0.5 else b''))
+		out += b'?' + (b'&' if r.random() < 0.1 else b'') + b'&'.join(fields) + (b'&' if r.random() < 0.15 else b'')
+	elif r.random() < 0.1:
+		out += b'?'
+	if c['frag']:
+		out += b'#' + esc(c['frag'], 'frag')
+	elif r.random() < 0.1:
+		out += b'#'
+	return bytes(out)
+
+
+def _observe_enc(c):
+	um, URI, InvalidURI, Percent = _impl()
+	o = {}
+	try:
+		u = _build(c)
+	except Exception as exc:
+		o['set'] = _exc(exc)
+		return o
+	o['set'] = {'t': _tuple(u)}
+	o['compose'] = _compose(u)
+	if 'b' not in o['compose'] or not in_domain(c):
+		return o   # (a host the IDNA encoder refuses, ...: outside the domain, nothing to re-write)
+	d = _enc_wire(c, o['set']['t'][4], dict(_registry()).get(c['scheme']))
+	o['d'] = d.hex()
+	o['parse'] = _parse(d)
+	if 't' in o['parse']:
+		try:
+			o['again'] = _compose(URI(d))
+		except Exception as exc:
+			o['again'] = _exc(exc)
+	return o
+
+
+def _hex_wire(key):
+	"""a URI carrying the escape %<key> in a path segment and in the fragment, completed to valid UTF-8 where the octet needs company; expected text or None"""
+	try:
+		v = int(key, 16) if re.match(r'^[0-9A-Fa-f]{2}$', key) else None
+	except ValueError:
+		v = None
+	exp, seq = None, b'%' + key.encode('ascii')
+	if v is not None:
+		for pre, post in ((b'', b''), (b'\xc3', b''), (b'', b'\x80'), (b'', b'\xa0\x80'), (b'', b'\x80\x80'), (b'', b'\x90\x80\x80'), (b'', b'\x80\x80\x80'), (b'', b'\x8f\x80\x80')):
+			try:
+				exp = (pre + bytes([v]) + post).decode('utf-8')
+			except UnicodeDecodeError:
+				continue
+			seq = b''.join(b'%%%02X' % x for x in pre) + b'%' + key.encode('ascii') + b''.join(b'%%%02x' % x for x in post)
+			break
+	else:
+		exp = '%' + key   # not an escape: stays literal
+	return b'x://h/a' + seq + b'b#' + seq, exp
+
+
 def observe(c):
 	um, URI, InvalidURI, Percent = _impl()
 	k = c['k']
@@ -396,32 +876,20 @@ def observe(c):
 		except Exception as exc:
 			o['set'] = _exc(exc)
 			return o
-		o['set'] = {'t': _tuple(u)}
-		o['ide'] = _idna_enc_table(o['set']['t'][3])
-		o['compose'] = _compose(u)
-		if 'b' not in o['compose']:
-			return o
-		data = bytes.fromhex(o['compose']['b'])
-		if k == 'mut':
-			import random
-			r2 = random.Random(c['seed'])
-			d = bytearray(data)
-			for _ in range(c['n']):
-				_mutate(r2, d)
-			data = bytes(d)
-			o['d'] = data.hex()
-		o['parse'] = _parse(data)
-		if k == 'rt' and 't' in o['parse']:
-			try:
-				v = URI(data)
-				o['again'] = _compose(v)
-				o['segs_back'] = list(v.path_segments)
-				try:
-					o['pairs_back'] = [list(p) for p in v.query]
-				except Exception as exc:
-					o['pairs_back'] = _exc(exc)
-			except Exception as exc:
-				o['again'] = _exc(exc)
+		return _after_build(u, c, k, o)
+	if k == 'st':
+		return _observe_st(c)
+	if k == 'enc':
+		return _observe_enc(c)
+	if k == 'reg':
+		d = c['scheme'].encode('ascii') + b'://h' + ((c['spell'] % c['dflt']) if '%d' in c['spell'] else c['spell']).encode('ascii') + b'/p'
+		o = _parse(d)
+		o['d'] = d.hex()
+		return o
+	if k == 'hex':
+		d, exp = _hex_wire(c['key'])
+		o = _parse(d)
+		o['d'] = d.hex()
 		return o
 	raise ValueError(k)
 
@@ -477,6 +945,27 @@ def _port_in(p):
 	return 'None' if p is None else '(Some %s)' % N(p)
 
 
+def _rt_terms(c, o, k):
+	terms = []
+	segs = ([''] + list(c['segs'])) if c['segs'] else []
+	out = _pobs(o['set'])
+	if out is None:
+		terms.append(FORCE_BAD)
+	elif 't' in o['set']:
+		t = o['set']['t']
+		terms.append('CSegs %s %s' % (L([_tx(s) for s in segs], 'bytes'), _tx(t[5])))
+		terms.append('CQuery %s %s' % (pairs([(a.encode('utf-8'), b.encode('utf-8')) for a, b in c['pairs']]), _tx(t[6])))
+		terms.append('CSet %s %s %s %s %s %s %s %s %s' % (_tx(c['scheme']), _tx(c['user']), _tx(c['pw']), _tx(c['host']), _port_in(c['port']), _tx(t[5]), _tx(t[6]), _tx(c['frag']), out))
+		terms.append(_ccompose(t, o['ide'], o['compose']))
+		if 'parse' in o:
+			data = bytes.fromhex(o['d']) if k == 'mut' else bytes.fromhex(o['compose']['b'])
+			terms.append(_cparse(data, o['parse']))
+	else:
+		# the port was refused: InvalidURI from the constructor
+		terms.append('CSet %s %s %s %s %s %s %s %s %s' % (_tx(c['scheme']), _tx(c['user']), _tx(c['pw']), _tx(c['host']), _port_in(c['port']), X(b''), X(b''), _tx(c['frag']), out))
+	return terms
+
+
 def coq_case(c, o):
 	k = c['k']
 	if 'harness_exception' in o:
@@ -487,6 +976,22 @@ def coq_case(c, o):
 		return 'CInt %s %s' % (X(bytes.fromhex(c['d'])), 'None' if o['v'] is None else '(Some (%s)%%Z)' % o['v'])
 	if k == 'dec':
 		return 'CDec %s %s' % (N(c['n']), X(bytes.fromhex(o['out'])))
+	if c.get('nocoq'):
+		return None
+	if k in ('reg', 'hex'):
+		return _cparse(bytes.fromhex(o['d']), o)
+	if k == 'enc':
+		return _cparse(bytes.fromhex(o['d']), o['parse']) if 'parse' in o else None
+	if k == 'st':
+		if 'final' not in o or 'set' not in o.get('fresh', {}) or 't' not in o['fresh']['set']:
+			return None
+		terms = _rt_terms(c, o['fresh'], 'rt')
+		f = o['final']
+		if 't' in f.get('set', {}):
+			terms.append(_ccompose(f['set']['t'], f['ide'], f['compose']))
+			if 'parse' in f:
+				terms.append(_cparse(bytes.fromhex(f['compose']['b']), f['parse']))
+		return 'CAll %s' % L(terms, 'case')
 	terms = []
 	if k == 'obj':
 		t = c['t']
@@ -496,22 +1001,7 @@ def coq_case(c, o):
 		if 'state' in o:
 			terms.append(_ccompose(o['state'], o['ide'], o['compose']))
 	else:
-		segs = ([''] + list(c['segs'])) if c['segs'] else []
-		out = _pobs(o['set'])
-		if out is None:
-			terms.append(FORCE_BAD)
-		elif 't' in o['set']:
-			t = o['set']['t']
-			terms.append('CSegs %s %s' % (L([_tx(s) for s in segs], 'bytes'), _tx(t[5])))
-			terms.append('CQuery %s %s' % (pairs([(a.encode('utf-8'), b.encode('utf-8')) for a, b in c['pairs']]), _tx(t[6])))
-			terms.append('CSet %s %s %s %s %s %s %s %s %s' % (_tx(c['scheme']), _tx(c['user']), _tx(c['pw']), _tx(c['host']), _port_in(c['port']), _tx(t[5]), _tx(t[6]), _tx(c['frag']), out))
-			terms.append(_ccompose(t, o['ide'], o['compose']))
-			if 'parse' in o:
-				data = bytes.fromhex(o['d']) if k == 'mut' else bytes.fromhex(o['compose']['b'])
-				terms.append(_cparse(data, o['parse']))
-		else:
-			# the port was refused: InvalidURI from the constructor
-			terms.append('CSet %s %s %s %s %s %s %s %s %s' % (_tx(c['scheme']), _tx(c['user']), _tx(c['pw']), _tx(c['host']), _port_in(c['port']), X(b''), X(b''), _tx(c['frag']), out))
+		terms = _rt_terms(c, o, k)
 	return 'CAll %s' % L(terms, 'case')
 
 
@@ -597,8 +1087,28 @@ def oracle(c, o):
 			return 'unexpected exception in %s: %s %s' % (part, e['err'], e.get('msg'))
 	if str(o.get('err', '')).startswith('escape'):
 		return 'unexpected exception: %s %s' % (o['err'], o.get('msg'))
+	if k == 'st':
+		return _oracle_st(c, o)
+	if k == 'enc':
+		return _oracle_enc(c, o)
+	if k == 'reg':
+		return _oracle_reg(c, o)
+	if k == 'hex':
+		return _oracle_hex(c, o)
 	if k != 'rt' or not in_domain(c):
 		return None
+	return _oracle_rt(c, o)
+
+
+def _escapes(o):
+	for part in ('set', 'compose', 'parse', 'again', 'twice', 'modify', 'pre', 't_after'):
+		e = o.get(part, {}) if isinstance(o.get(part), dict) else {}
+		if str(e.get('err', '')).startswith('escape'):
+			return 'unexpected exception in %s: %s %s' % (part, e['err'], e.get('msg'))
+	return None
+
+
+def _oracle_rt(c, o):
 	if 't' not in o['set']:
 		return 'assembling the URI raised %s' % (o['set'],)
 	t0 = o['set']['t']
@@ -624,6 +1134,98 @@ def oracle(c, o):
 		return 'path_segments read back differ: %r -> %r' % (c['segs'], o.get('segs_back'))
 	if o.get('pairs_back') != [list(p) for p in c['pairs']]:
 		return 'query pairs read back differ: %r -> %r' % (c['pairs'], o.get('pairs_back'))
+	return None
+
+
+def _oracle_st(c, o):
+	"""a reused object must show exactly what a new object assembled from the same final components shows (and that must satisfy the property)"""
+	for part in (o, o.get('final', {}), o.get('fresh', {})):
+		e = _escapes(part)
+		if e:
+			return 'reused object: ' + e
+	if 't' not in o.get('pre', {}):
+		return None if not in_domain(c['a']) else 'reused object: assembling/serialising the first components raised %s' % (o.get('pre'),)
+	if o['pre2'] != o['pre']:
+		return 'reused object: reading it (%s) or serialising it changed it: %r -> %r' % (','.join(c['reads']), o['pre'], o['pre2'])
+	if 'shared' in o and o['shared'] != o['pre']:
+		return 'reused object: a copy taken before the modification followed it: %r, original was %r' % (o['shared'], o['pre'])
+	if 'final' not in o:
+		return None if not in_domain(c) else 'reused object: assembling a new object from the final components raised %s' % (o['fresh'],)
+	fin, fre = o['final'], o['fresh']
+	if 'modify' in o:
+		# the modification itself was refused: a new object must refuse the same data (parse of what the new object serialises)
+		exp = fre.get('parse', {}) if c['way'] in ('parse', 'ctor-reinit') else fre.get('set', {})
+		if exp.get('err') != o['modify'].get('err'):
+			return 'reused object: modifying it (%s) raised %s, a new object gives %s' % (c['way'], o['modify'], {x: exp.get(x) for x in ('t', 'err')})
+		return _oracle_rt(c, fre) if in_domain(c) else None
+	exp_t = fre.get('parse', {}).get('t') if c['way'] in ('parse', 'ctor-reinit') else fre['set'].get('t')
+	if exp_t is not None and fin['set'].get('t') != exp_t:
+		return 'reused object: after %s (%s) its components are %r, a new object from the same data has %r (first use: %r)' % (c['way'], ','.join(c['order']) if c['way'] in ('attr', 'partial') else 'all', fin['set'].get('t'), exp_t, o['pre']['t'])
+	if fin.get('t_after') != fin['set']:
+		return 'reused object: serialising changed the components: %r -> %r' % (fin['set'], fin.get('t_after'))
+	if fin.get('twice') != fin.get('compose'):
+		return 'reused object: serialising twice gives different octets: %r then %r' % (fin.get('compose'), fin.get('twice'))
+	if exp_t is not None and fin['set'].get('t') == fre['set'].get('t'):
+		for part in ('compose', 'again', 'segs_back', 'pairs_back'):
+			if fin.get(part) != fre.get(part):
+				return 'reused object: %s differs from a new object with the same components %r: %r, new object %r (first use: %r)' % (part, exp_t, fin.get(part), fre.get(part), o['pre']['t'])
+		if fin.get('parse', {}).get('t') != fre.get('parse', {}).get('t') or fin.get('parse', {}).get('err') != fre.get('parse', {}).get('err'):
+			return 'reused object: its serialisation parses differently from a new object\'s: %r vs %r' % (fin.get('parse'), fre.get('parse'))
+	rp = o.get('reparse')
+	if rp:
+		for n in ('second', 'third'):
+			if n in rp and ({x: rp[n].get(x) for x in ('t', 'err')} != {x: rp[n + '_fresh'].get(x) for x in ('t', 'err')}):
+				return 'one object parsing a %s URI: %r, a new object: %r (octets %r after %r)' % (n, rp[n], rp[n + '_fresh'], fin['compose'].get('b'), o['pre']['b'])
+	if not in_domain(c):
+		return None
+	# the absolute statement on both (a class-level memo makes the new object wrong in the same way)
+	for name, x in (('new', fre), ('reused', fin)):
+		if name == 'reused' and ('modify' in o or c['way'] in ('parse', 'ctor-reinit')):
+			continue   # its components are a parse result; covered by the comparison above and by the new object
+		r = _oracle_rt(c, x)
+		if r:
+			return '%s object after an earlier use (%r): %s' % (name, o['pre']['b'], r)
+	return None
+
+
+def _oracle_enc(c, o):
+	if not in_domain(c):
+		return None
+	if 't' not in o.get('set', {}) or 'b' not in o.get('compose', {}):
+		return None   # the plain round trip of the same tuple is an 'rt' matter
+	if 'parse' not in o:
+		return None
+	t0, d = o['set']['t'], bytes.fromhex(o['d'])
+	p = o['parse']
+	if 't' not in p:
+		return 're-encoded form: parsing %r (the components %r written by another sender; the library writes %r) raised %s' % (d, t0, bytes.fromhex(o['compose']['b']), p.get('err'))
+	names = ['scheme', 'username', 'password', 'host', 'port', 'path', 'query_string', 'fragment']
+	diff = [n for n, x, y in zip(names, t0, p['t']) if x != y]
+	if diff:
+		return 're-encoded form: %r (the library writes %r) parses to different components in %s: %r, expected %r' % (d, bytes.fromhex(o['compose']['b']), ','.join(diff), p['t'], t0)
+	if c['user'] or not c['pw']:   # (D19: a password without user name is not serialised)
+		if o.get('again', {}).get('b') != o['compose']['b']:
+			return 're-encoded form: %r parses to the same components but serialises to %r instead of %r' % (d, o.get('again'), o['compose'])
+	return None
+
+
+def _oracle_reg(c, o):
+	d = bytes.fromhex(o['d'])
+	dflt, spell = c['dflt'], c['spell']
+	port = int('1%d' % dflt) if spell == ':1%d' else dflt
+	exp = [c['scheme'].lower(), '', '', 'h', port, '/p', '', '']
+	if o.get('t') != exp:
+		return 'registered scheme: %r parses to %r, expected %r' % (d, o.get('t') or o.get('err'), exp)
+	return None
+
+
+def _oracle_hex(c, o):
+	d, exp = _hex_wire(c['key'])
+	if exp is None:
+		return None if o.get('err') in ('invalid', 'unicode') else 'escape %%%s: %r is not UTF-8 after decoding but parses to %r' % (c['key'], d, o.get('t'))
+	want = ['x', '', '', 'h', None, '/a%sb' % exp.replace('/', '%2f'), '', exp]
+	if o.get('t') != want:
+		return 'escape %%%s: %r parses to %r, expected %r' % (c['key'], d, o.get('t') or o.get('err'), want)
 	return None
 
 
@@ -660,7 +1262,7 @@ def _rfc_reading(c, t0, b):
 
 
 def classify(c, o, fail):
-	if c['k'] != 'rt' or fail.startswith(('unexpected exception', 'harness exception')):
+	if c['k'] not in ('rt', 'st', 'enc') or fail.startswith(('unexpected exception', 'harness exception', 'reused object: unexpected exception')):
 		return None
 	texts = [c['user'], c['pw'], c['frag']] + list(c['segs']) + [x for p in c['pairs'] for x in p]
 	if _low(texts):
